@@ -15,6 +15,14 @@ pub(crate) fn parse_attribute(
     parse_content(content, true, base_position)
 }
 
+// https://www.w3.org/TR/xml/#sec-line-ends
+pub(crate) fn normalize_line_ends(content: &str) -> Cow<str> {
+    if !content.contains('\r') {
+        return Cow::Borrowed(content);
+    }
+    Cow::Owned(content.replace("\r\n", "\n").replace('\r', "\n"))
+}
+
 fn parse_content(
     content: Cow<str>,
     attribute: bool,
